@@ -12,6 +12,8 @@ import GormModel.Gen.VisitFacts
 import GormModel.Lemmas.HookVisit
 import GormModel.Lemmas.HookWalk
 import GormModel.Gen.HookWalk
+import GormModel.Model.HookNested
+import GormModel.Gen.AssocSessions
 namespace Gorm
 open Gen
 
@@ -725,5 +727,66 @@ theorem C13_walk_current_tree (slices : List (List Bool)) (cur : Nat) :
 example : walks genWalkCfg [[true, true, true], [true, true, true], [true, true]] 0 =
     [[⟨0, 0⟩, ⟨1, 1⟩, ⟨2, 2⟩], [⟨0, 0⟩, ⟨1, 1⟩, ⟨2, 2⟩], [⟨0, 0⟩, ⟨1, 1⟩]] := by decide
 example : walkSet (fun i => i + 10) (walk genWalkCfg [true, true, true] 7).1 [0, 0, 0] = some [10, 11, 12] := by decide
+
+/-! ## Round 6: nested operations of the association-saving callbacks keep the operation's SkipHooks flag
+
+  The records of a custom many2many JOIN MODEL (`db.SetupJoinTable`) are created by the nested
+  `….Create(joins.Interface())` of `SaveAfterAssociations`; they are "affected in-memory records" whose hooks must fire
+  exactly when the enclosing operation runs hooks.  `Gen.assocNestedOps` / `Gen.assocSessionLits` are regenerated from
+  callbacks/associations.go; the harness suite `joinmodel` (harness/c13_r6.go) judges the behaviour end to end. -/
+
+/-- general: a chain all of whose SkipHooks fields pass the statement's flag is faithful — whatever else it sets -/
+theorem C13_nested_pass_flag_faithful (fields : List (String × String)) (h : skipFieldsPassFlag fields = true) (b : Bool) :
+    nestedSkipHooks b fields = some b := by
+  induction fields with
+  | nil => rfl
+  | cons f rest ih =>
+    obtain ⟨k, e⟩ := f
+    simp only [skipFieldsPassFlag, List.all_cons, Bool.and_eq_true] at h
+    have ih' := ih (by simpa [skipFieldsPassFlag] using h.2)
+    simp only [nestedSkipHooks, ih']
+    by_cases hk : k = "SkipHooks"
+    · have h1 := h.1
+      simp only [hk, bne_self_eq_false, Bool.false_or, Bool.or_eq_true, beq_iff_eq] at h1
+      rcases h1 with h1 | h1
+      · simp [hk, h1, skipExprVal]
+      · subst h1
+        simp [hk, skipExprVal]
+    · simp [hk]
+
+/-- a constant `SkipHooks: true` in the chain (the "link rows are plumbing" change) is NOT faithful: the nested records'
+    hooks are silent although the operation runs hooks -/
+theorem C13_nested_constant_skip_counterexample :
+    nestedSkipHooks false [("NewDB", "true"), ("SkipHooks", "true"), ("DisableNestedTransaction", "true")] = some true := by
+  decide
+
+/-- the tree under check: the join rows are created by exactly one nested Create in SaveAfterAssociations, its error is
+    handed to db.AddError, it disables the nested transaction (stays in the operation's transaction) -/
+theorem C13_join_rows_create_site :
+    (assocNestedOps.filter fun o => o.2.2.1 == "joins.Interface()").map (fun o => (o.1, o.2.1, o.2.2.2.2)) =
+        [("SaveAfterAssociations", "Create", true)] ∧
+    ∀ o ∈ assocNestedOps, o.2.2.1 = "joins.Interface()" → ("DisableNestedTransaction", "true") ∈ o.2.2.2.1 := by
+  decide
+
+/-- the tree under check: every Session literal of callbacks/associations.go passes the statement's SkipHooks flag -/
+theorem C13_assoc_sessions_pass_flag :
+    (∀ o ∈ assocNestedOps, skipFieldsPassFlag o.2.2.2.1 = true) ∧
+    (∀ l ∈ assocSessionLits, skipFieldsPassFlag l.2 = true) := by
+  decide
+
+/-- hence, for the tree under check: every nested operation issued by the association-saving callbacks (in particular
+    the creation of the join-model records) runs hooks iff the enclosing operation does -/
+theorem C13_nested_ops_current_tree (b : Bool) :
+    ∀ o ∈ assocNestedOps, nestedSkipHooks b o.2.2.2.1 = some b := fun o ho =>
+  C13_nested_pass_flag_faithful o.2.2.2.1 (C13_assoc_sessions_pass_flag.1 o ho) b
+
+/-- the tree under check: NO Session literal of association.go or callbacks/*.go (association saves, association mode,
+    delete-with-associations, preload, callMethod) switches hooks off by a constant — every SkipHooks field passes the
+    statement's own flag, so each of these derived statements runs hooks iff the enclosing operation does -/
+theorem C13_callback_sessions_pass_flag :
+    (∀ l ∈ callbackSessionLits, skipFieldsPassFlag l.2.2 = true) ∧
+    ∀ l ∈ callbackSessionLits, ∀ b, nestedSkipHooks b l.2.2 = some b :=
+  have h : ∀ l ∈ callbackSessionLits, skipFieldsPassFlag l.2.2 = true := by decide
+  ⟨h, fun l hl b => C13_nested_pass_flag_faithful l.2.2 (h l hl) b⟩
 
 end Gorm
